@@ -19,12 +19,18 @@
       -> `<answer text>`             the entry point of `Api` run on a fresh thread under TZ = tz
   lc.run <world…> | <step…>          steps: S- | S! | Sx<hex> | A<microseconds> | T<thread>
                                             | C<thread>:<u|l>:<n|r|f|?>
+                                            | M<nat> | M-            the mtime of /etc/localtime changes (touch)
+                                            | L<nat|->:<a|d|b|int>:<x<hex>|->   /etc/localtime replaced: new mtime,
+                                              what the path now reads as (absent | unreadable | not TZif | content
+                                              number), the system zone name now reported
+                                            first step token may be E- | E! | Ex<hex>: the value of TZ at process
+                                            start (default: unset)
       -> one item per C step: the content number of the zone used, or `?` when the class is `?`
          (timing was ambiguous), or `class!<decision>` when a certain class contradicts the
          model's own decision from its clock.
 -/
 import Chrono.Drv.Util
-import Chrono.Model.LocalCache
+import Chrono.Model.LocalCacheWorld
 namespace Chrono.Drv.LocalCache
 open Chrono Chrono.Drv Chrono.M.LocalCache
 
@@ -150,6 +156,7 @@ def classOk : Char → Decision → Bool
 
 inductive Tok where
   | st (s : Step)
+  | world (s : StepW)
   | conv (t : Nat) (localDir : Bool) (cls : Char)
 
 def splitColon : List Char → List (List Char)
@@ -167,6 +174,20 @@ def stepTok (tok : String) : Option Tok :=
   | 'S' :: rest => (hexL rest).map (fun v => .st (.setTZ v))
   | 'A' :: rest => (natL rest).map (fun us => .st (.advance (us * 1000)))
   | 'T' :: rest => (natL rest).map (fun t => .st (.spawn t))
+  | ['M', '-'] => some (.world (.setMtime none))
+  | 'M' :: rest => (natL rest).map (fun m => .world (.setMtime (some m)))
+  | 'L' :: rest =>
+    match splitColon rest with
+    | [m, f, n] =>
+      let m? : Option (Option Nat) := if m = ['-'] then some none else (natL m).map some
+      let f? : Option FileState :=
+        if f = ['a'] then some .absent else if f = ['d'] then some .unreadable
+        else if f = ['b'] then some (.data none) else (intL f).map (fun c => .data (some c))
+      let n? : Option (Option Bytes) := if n = ['-'] then some none else (hexL n).map some
+      match m?, f?, n? with
+      | some m, some f, some n => some (.world (.replaceLocaltime m f n))
+      | _, _, _ => none
+    | _ => none
   | 'C' :: rest =>
     match splitColon rest with
     | [t, [d], [cls]] =>
@@ -177,18 +198,27 @@ def stepTok (tok : String) : Option Tok :=
     | _ => none
   | _ => none
 
-def runToks (c : Cfg) (W : World) : State → List Tok → List String
+def runToks (c : Cfg) : StateW → List Tok → List String
   | _, [] => []
-  | s, .st x :: rest => runToks c W (step W s x).1 rest
+  | s, .st x :: rest => runToks c (stepW s (.base x)).1 rest
+  | s, .world x :: rest => runToks c (stepW s x).1 rest
   | s, .conv t l cls :: rest =>
-    let r := step W s (.convert t l)
+    let r := stepW s (.base (.convert t l))
     let item := match r.2 with
       | some (z, dec) =>
         if cls == '?' then "?"
         else if classOk cls dec then zoneOut c z
         else s!"class!{decName dec}"
       | none => "bad"
-    item :: runToks c W r.1 rest
+    item :: runToks c r.1 rest
+
+/-- an optional first token `E<tz>`: the value of TZ when the process starts -/
+def splitStart : List String → Option (EnvVal × List String)
+  | [] => some (.unset, [])
+  | t :: rest =>
+    match t.toList with
+    | 'E' :: e => (envTok (String.ofList e)).map (fun v => (v, rest))
+    | _ => some (.unset, t :: rest)
 
 def splitBar : List String → List String × List String
   | [] => ([], [])
@@ -211,11 +241,14 @@ def handle (op : String) (args : List String) : Option String :=
       | _, _, _ => bad)
   | "lc.run", toks =>
     let (wt, st) := splitBar toks
-    some (match worldToks {} wt, st.mapM stepTok with
-      | some c, some steps =>
-        match runToks c c.world (init .unset 0) steps with
-        | [] => "-"
-        | out => joinSp out
+    some (match worldToks {} wt, splitStart st with
+      | some c, some (e0, st) =>
+        match st.mapM stepTok with
+        | some steps =>
+          match runToks c (initW c.world e0 0) steps with
+          | [] => "-"
+          | out => joinSp out
+        | none => bad
       | _, _ => bad)
   | _, _ => none
 
